@@ -34,7 +34,9 @@ theorem C05_stereo_shape (s stem sep : Name) (side : Char) (h : stereoMatch s = 
     · simp only [hside, if_true] at h
       by_cases hemp : (rest.takeWhile isSep).isEmpty = true
       · simp [hemp] at h
-      · simp only [hemp, Bool.false_eq_true, if_false, Option.some.injEq, Prod.mk.injEq] at h
+      · by_cases hnl : ((rest.dropWhile isSep).reverse.any (· == '\n')) = true
+        · simp [hnl] at h
+        simp only [hemp, hnl, Bool.or_self, Bool.false_eq_true, if_false, Option.some.injEq, Prod.mk.injEq] at h
         obtain ⟨h1, h2, h3⟩ := h
         subst h1 h2 h3
         refine ⟨?_, ?_, ?_, (s.reverse.takeWhile isWs).reverse, ?_, ?_⟩
